@@ -9,7 +9,7 @@ from pathlib import Path
 V = Path(__file__).resolve().parent.parent
 d = Path(sys.argv[1])
 bad = 0
-for p in sorted(d.glob("patch*.diff")):
+for p in sorted(d.glob("*patch*.diff")):
     r = subprocess.run([sys.executable, str(V / "tools" / "try_patch.py"), str(p)], cwd=V, capture_output=True, text=True)
     first = r.stdout.strip().splitlines()[0] if r.stdout.strip() else "?"
     fired = re.findall(r"\[(C\d\d) rc=(\d)\]", r.stdout)
